@@ -17,6 +17,7 @@ Require Import Verif.Lib.Wire Verif.Lib.Text Verif.Lib.PathNorm Verif.Lib.Utf8 V
                Verif.Gen.Facts_C02 Verif.Gen.Facts_C07 Verif.Model.C02 Verif.Model.C07
                Verif.Proofs.C02_memo Verif.Proofs.C07_rt Verif.Proofs.C07 Verif.Proofs.C07_hist Verif.Proofs.C07_c17
                Verif.Gen.Code_C07 Verif.Proofs.C07_gen.
+Require Verif.Proofs.C02_gen.
 Require Verif.Model.C17.
 
 (* the regenerated facts are the ones the proofs were written against (in
@@ -352,3 +353,18 @@ Theorem C07_gen_virtual_root_inverts : forall root r names vroot vt v,
   gen_virtual_root root r vroot = Val (FoundAt v).
 Proof. exact gen_virtual_root_inverts. Qed.
 Print Assumptions C07_gen_virtual_root_inverts.
+
+(* the functions regenerated by C02's translator that this property stands on (Gen/Facts_C02.v is rewritten from the
+   current source by every C07 run as well): their equality theorems are part of THIS build *)
+Theorem C07_generated_split_path_info_is_model : forall p, gen_split_path_info p = split_path_info p.
+Proof. exact Verif.Proofs.C02_gen.gen_split_path_info_is_model. Qed.
+Print Assumptions C07_generated_split_path_info_is_model.
+
+Theorem C07_generated_decode_path_info_is_model : forall p, gen_decode_path_info p = decode_path_info p.
+Proof. exact Verif.Proofs.C02_gen.gen_decode_path_info_is_model. Qed.
+Print Assumptions C07_generated_decode_path_info_is_model.
+
+Theorem C07_generated_traverser_call_is_model : forall root q,
+  Verif.Proofs.C02_gen.gen_traverser_call root q = traverser_call root q.
+Proof. exact Verif.Proofs.C02_gen.gen_traverser_call_is_model. Qed.
+Print Assumptions C07_generated_traverser_call_is_model.
